@@ -53,6 +53,7 @@ func runC01(c *vkit.Ctx, i int, h *History) {
 	s := NewSess("c01")
 	defer s.Close()
 	s.ShareConfigs = i%2 == 0
+	s.ZeroConfigs = i%4 == 1
 	if s.ShareConfigs {
 		c.Count("histories_through_shared_config_objects", 1)
 	}
